@@ -32,6 +32,7 @@ Ltac nd :=
   | |- context [need 24 ?b] => change (need 24 b) with (need (12 + 12) b); rewrite (need_add 12 12 b)
   | |- context [need 8 ?b] => change (need 8 b) with (need (4 + 4) b); rewrite (need_add 4 4 b)
   | |- context [need 5 ?b] => change (need 5 b) with (need (4 + 1) b); rewrite (need_add 4 1 b)
+  | |- context [need (?x + ?y) ?b] => rewrite (need_add x y b)
   | |- context [need ?n ?b] => destruct (need n b) as [[? ?]|?]; cbn [bind fst snd]
   | |- context [binstream ?b] => destruct (binstream b) as [[? ?]|?]; cbn [bind fst snd]
   end.
@@ -77,3 +78,34 @@ Proof.
 Qed.
 End L.
 Print Assumptions step_class_is_layout.
+
+(* wowp: the player acts on the base-player packet and the version packet only; every other mapped class is constructed (its reader
+   runs, so a short header is a struct.error) and then ignored.  The model's wowp branches are exactly "the layout parses" (plus the
+   length assertion of the nested-property reader). *)
+Definition wowp_ignored (c : pclass) : bool :=
+  match c with EntityControl | EntityEnter | EntityLeave | EntityProperty | EntityMethod | Position => true | _ => false end.
+Theorem step_wowp_is_layout St w p c L :
+  s_game St = Wowp -> table_get (pk_type p) (s_table St) = Some c -> wowp_ignored c = true -> class_layout Wowp c = Some L ->
+  step St w p = match parse_layout L (pk_payload p) with Ok _ => (w, None) | Err e => (w, Some e) end.
+Proof.
+  intros G T I HL. unfold step. rewrite T, G.
+  destruct c; try discriminate I; cbn [class_layout] in HL; injection HL as <-; unfold atomic; cbn [parse_layout]; unfold get_s, get_u.
+  - change 5%nat with (4 + 1)%nat. rewrite need_add. repeat nd; reflexivity.
+  - change 12%nat with (4 + (4 + 4))%nat. rewrite !need_add. repeat nd; reflexivity.
+  - repeat nd; reflexivity.
+  - change 8%nat with (4 + 4)%nat. rewrite need_add. repeat nd; reflexivity.
+  - change 8%nat with (4 + 4)%nat. rewrite need_add. repeat nd; reflexivity.
+  - change 45%nat with (4 + (4 + (12 + (12 + (4 + (4 + (4 + 1)))))))%nat. rewrite !need_add. repeat nd; reflexivity.
+Qed.
+Theorem step_wowp_nested St w p :
+  s_game St = Wowp -> table_get (pk_type p) (s_table St) = Some NestedProperty ->
+  step St w p = match parse_layout [KU 4; KS 1; KU 1; KSkip 3; KRest] (pk_payload p) with
+                | Ok [LN _; LZ _; LN sz; LB _; LB payload] => if N.eqb (N.of_nat (length payload)) sz then (w, None) else (w, Some EAssert)
+                | Ok _ => (w, Some EOther)
+                | Err e => (w, Some e)
+                end.
+Proof.
+  intros G T. unfold step. rewrite T, G. unfold atomic. cbn [parse_layout]. unfold get_s, get_u. repeat nd; try reflexivity.
+  destruct (N.eqb _ _); reflexivity.
+Qed.
+Print Assumptions step_wowp_is_layout.
